@@ -19,7 +19,7 @@ def hexOf (s : String) : String := bytesHex (s.toUTF8.toList.map (·.toNat))
     index), `k=^<hexv>` (^ = the OTSDB datapoints with an odd point index spell the first byte of the value as a \u00XX
     escape: the same value), `k=!t` / `k=!n` / `k=!q<hexv>` (the value is sent as JSON true / null / as the string
     <v>\q, an invalid escape sequence: not a tag value, the datapoint must be rejected);
-    the flag is 1 for #, 2 for the ! forms, 0 otherwise -/
+    the flag is 1 for #, 2 for the ! forms, 3 for ^, 0 otherwise -/
 def parseLabel (kv : String) : Option ((String × String) × Nat) :=
   match kv.splitOn "=" with
   | [k, v] =>
@@ -29,15 +29,15 @@ def parseLabel (kv : String) : Option ((String × String) × Nat) :=
     if v.startsWith "!" then none else
     let num : Bool := v.startsWith "#"
     let esc : Bool := v.startsWith "^"
-    (hexStr? (if num || esc then (v.drop 1).toString else v)).map (fun (x : String) => ((k, x), if num then 1 else 0))
+    (hexStr? (if num || esc then (v.drop 1).toString else v)).map (fun (x : String) => ((k, x), if num then 1 else if esc then 3 else 0))
   | _ => none
 
-/-- labels, keys marked #, keys of the ! forms -/
-def parseLabels (s : String) : Option (List (String × String) × List String × List String) :=
-  if s.isEmpty then some ([], [], []) else
+/-- labels, keys marked #, keys of the ! forms, keys marked ^ -/
+def parseLabels (s : String) : Option (List (String × String) × List String × List String × List String) :=
+  if s.isEmpty then some ([], [], [], []) else
   match (s.splitOn ",").mapM parseLabel with
   | none => none
-  | some l => some (l.map (·.1), (l.filter (·.2 == 1)).map (·.1.1), (l.filter (·.2 == 2)).map (·.1.1))
+  | some l => some (l.map (·.1), (l.filter (·.2 == 1)).map (·.1.1), (l.filter (·.2 == 2)).map (·.1.1), (l.filter (·.2 == 3)).map (·.1.1))
 
 def parsePoints (s : String) : Option (List (Nat × Nat)) :=
   if s.isEmpty then some [] else
@@ -52,7 +52,7 @@ def parseSeries (tok : String) : Option Series :=
   | [n, rest] => match rest.splitOn "}@" with
     -- a leading ^ : the OTSDB datapoints with an odd point index spell the first byte of the NAME as a \u00XX escape
     | [ls, ps] => match hexStr? (if n.startsWith "^" then (n.drop 1).toString else n), parseLabels ls, parsePoints ps with
-      | some nm, some ls, some ps => some { name := nm, labels := ls.1, points := ps, numKeys := ls.2.1, badKeys := ls.2.2, nameEscaped := n.startsWith "^" }
+      | some nm, some ls, some ps => some { name := nm, labels := ls.1, points := ps, numKeys := ls.2.1, badKeys := ls.2.2.1, escKeys := ls.2.2.2, nameEscaped := n.startsWith "^" }
       | _, _, _ => none
     | _ => none
   | _ => none
@@ -88,6 +88,8 @@ def applyHistory (ss : List Series) (hist : List String) : Option (List Series) 
                viaRW := mine.any (·.2.2),
                -- the escaped spelling is sent by the OTSDB datapoints with an odd point index only
                nameEscaped := s.nameEscaped && mine.any (fun (_, j, w) => !w && j % 2 == 1),
+               -- … and so is the escaped spelling of a value; it only matters next to a datapoint with the plain spelling
+               escKeys := if mine.any (fun (_, j, w) => !w && j % 2 == 1) && mine.any (fun (_, j, w) => w || j % 2 == 0) then s.escKeys else [],
                numKeys := if numSent then s.numKeys else [] }))
 
 /-- history tokens `tf` (one pass of the tags-tree flush timer) and `cr` (the WAL timers run once, the process is killed,
